@@ -12,6 +12,8 @@ REG.assumptions += [
     'scipy RBFInterpolator reproduces its data at the training nodes and is a function of (data, kwargs) (the kernel is replaced by a recording stub)',
     'P <= 2 phases, E <= 2 solutes; history length and grid sizes symbolic; PBM state satisfies PBM_INV and max >= 10*min (invariant of '
     'PopulationBalanceModel construction / re-mesh / extension, needed because fromDict rebuilds the PBM through its constructor)',
+    'assumed contract on Surrogate._filter_points (scipy pdist / squareform and index-form np.where are outside the numpy model): all rows kept and returned as they are, '
+    'or fewer rows returned and two distinct rows closer than the tolerance exist; the kernel of the current tree never calls it, so the assumption is unused there',
     'RBFKernel contract: with normalisation the training inputs spread in every dimension (column range > 0; the code divides by it); 2 feature columns, N training points symbolic',
 ]
 REG.undecided += ['a trained surrogate reproduces its training data AT the training points: the kernel side is proved (RBFKernel hands the interpolator every training '
@@ -266,6 +268,33 @@ def c_rbf(ctx, it, cfg):
             self.asked.append(q)
             return ('answer', len(self.asked))
     it.load(SUR).env['RBFInterpolator'] = Interp
+    filt = []
+
+    def filter_points(inputs, outputs, tol=1e-3):
+        # ASSUMED contract on the module's helper _filter_points (scipy pdist/squareform, index-form np.where: outside the numpy model); the kernel
+        # of the current tree does not call it.  Contract: either every row is kept (inputs and outputs returned as they are), or at least one row is
+        # dropped and then two rows p < q at a distance in (0, tol] exist; which rows survive is left arbitrary.
+        filt.append(1)
+        k = len(filt)
+        inputs = to_arr(inputs)
+        n0, dd = inputs.shape
+        n1 = integer(ctx, 'kept%d' % k, lambda v: and_(v >= 1, v <= n0))
+        p_ = integer(ctx, 'closeP%d' % k)
+        q_ = integer(ctx, 'closeQ%d' % k)
+        d2 = 0
+        for j in range(dd):
+            d2 = d2 + (inputs.get(p_, j) - inputs.get(q_, j)) * (inputs.get(p_, j) - inputs.get(q_, j))
+        ctx.assume(or_(eq(n1, n0), and_(lt(n1, n0), p_ >= 0, lt(p_, q_), lt(q_, n0), gt(d2, 0), le(d2, tol * tol))))
+        fin, keep = array(ctx, 'filteredIn%d' % k, (n1, dd)), eq(n1, n0)
+        src = inputs.snap()
+        new_in = Arr((n1, dd), lambda i, j: ite(keep, src(i, j), fin.get(i, j)), 'real')
+        new_out = []
+        for m_, o in enumerate(outputs):
+            o = to_arr(o)
+            fo, so = array(ctx, 'filteredOut%d_%d' % (k, m_), (n1,) + tuple(o.shape[1:])), o.snap()
+            new_out.append(Arr((n1,) + tuple(o.shape[1:]), (lambda fo, so: lambda *ix: ite(keep, so(*ix), fo.get(*ix)))(fo, so), 'real'))
+        return new_in, new_out
+    it.load(SUR).env['_filter_points'] = filter_points
     N = integer(ctx, 'N', lambda v: v >= 2)
     d = 2
     x = array(ctx, 'xtrain', (N, d))
